@@ -387,7 +387,7 @@ Inductive mstep :=
 | MGate        (* v2 ProposerConfig asks the account for its name: the harness can hold the request here, inside the read lock *)
 | MRead        (* resolve the settings from s.executionConfig *)
 | MBranchErr   (* pre-6cf77a3 auctionBlock: "if err != nil { return }" before the outer RUnlock *)
-| MRegRead     (* registration round: reads s.executionConfig without the lock *)
+| MRegRead     (* registration round: reads s.executionConfig (through currentExecutionConfig, under the read lock, since the C17 repair) *)
 | MStart       (* refresh: executionConfig := s.executionConfig (under the read lock) *)
 | MObtain      (* refresh: obtainExecutionConfig; on failure executionConfig = s.executionConfig (no lock) *)
 | MWrite.      (* refresh: s.executionConfig = executionConfig (under the write lock) *)
@@ -408,7 +408,7 @@ Definition program (pre_fix : bool) (sp : spawn) : list mstep :=
       if pre_fix
       then [MRLock; MRLock; MGate; MRead; MRUnlock; MBranchErr; MRUnlock; MNop]
       else [MRLock; MGate; MRead; MRUnlock]                      (* auctionBlock -> ProposerConfig *)
-  | KReg => [MRegRead]
+  | KReg => [MRLock; MRegRead; MRUnlock; MRLock; MRegRead; MRUnlock]   (* currentExecutionConfig() twice: nil test, then the round's snapshot *)
   | KRefresh =>
       match rf_acc (sp_ref sp) with
       | AccSome => [MRLock; MStart; MRUnlock; MObtain; MLock; MWrite; MUnlock]
